@@ -7,75 +7,136 @@ package store
 
 // ---- abstract state of a store object (ghost fields, keyed by the object) ----------
 //
-// reg      : the set of registered node ids
-// cell     : the ledger cell a node's balance lives in (its wallet once linked, else its trial cell)
-// credit   : credit per ledger cell
-// deposit  : deposit per ledger cell
-// total    : sum of credit over all ledger cells (the quantity C01 is about)
-// logid, logamt, loglen : append-only ghost log of successful balance operations (node id, amount)
-// nonce    : highest nonce accepted per identity
+// reg               : the set of registered node ids
+// node              : the record of each registered node
+// linked, acct      : which nodes are linked to a wallet, and to which
+// acredit, adeposit : credit / deposit per wallet account
+// tcredit, tdeposit : credit / deposit per not-yet-linked (trial) node
+// total             : sum of credit over all wallets and all trial balances (the quantity C01 is about)
+// nonce             : highest nonce accepted per identity
+//
+// Implementations define these through an "abstraction" block; clients see them as ghost state
+// that only the store's methods change.
 //
 //@ ghost field reg set[NodeID]
-//@ ghost field cell map[NodeID]string
-//@ ghost field credit map[string]int
-//@ ghost field deposit map[string]int
+//@ ghost field node map[NodeID]Node
+//@ ghost field linked set[NodeID]
+//@ ghost field acct map[NodeID]Account
+//@ ghost field acredit map[Account]int
+//@ ghost field adeposit map[Account]int
+//@ ghost field tcredit map[NodeID]int
+//@ ghost field tdeposit map[NodeID]int
 //@ ghost field total int
+//@ ghost field nonce map[string]int
+//
+// History ghosts (defined by the contracts, not by implementations):
+// logid, logamt, loglen : append-only log of successful balance operations (node id, amount)
+// effects               : count of effectful operations performed on behalf of the current request
 //@ ghost field logid map[int]NodeID
 //@ ghost field logamt map[int]int
 //@ ghost field loglen int
-//@ ghost field nonce map[string]int
+//@ ghost var effects int
 
 // plainError: the error (if any) is not one of the typed errors the pool and payment layers give a meaning to
 //@ pure plainError(err error) bool = !typeis(err, balance.LowBalanceError) && !typeis(err, pool.VerifyFailedError) && !typeis(err, payment.WithdrawBalanceMinimumError)
 
-//@ pure spendable(s BalanceStore, id NodeID) int = s.credit[s.cell[id]] + s.deposit[s.cell[id]]
+//@ pure nodeCredit(s BalanceStore, id NodeID) int = ite(s.linked[id], s.acredit[s.acct[id]], s.tcredit[id])
+//@ pure nodeDeposit(s BalanceStore, id NodeID) int = ite(s.linked[id], s.adeposit[s.acct[id]], s.tdeposit[id])
+//@ pure spendable(s BalanceStore, id NodeID) int = nodeCredit(s, id) + nodeDeposit(s, id)
+//@ pure sameCredit(s BalanceStore) bool = s.acredit == old(s.acredit) && s.tcredit == old(s.tcredit)
+//@ pure sameLinks(s BalanceStore) bool = s.linked == old(s.linked) && s.acct == old(s.acct) && s.reg == old(s.reg)
+//@ pure sameDeposits(s BalanceStore) bool = s.adeposit == old(s.adeposit) && s.tdeposit == old(s.tdeposit)
+
+// ---- BalanceStore ---------------------------------------------------------------------
 
 //@ interface store.BalanceStore.GetNodeBalance(nodeID) (result, err)
 //@ ensures [unreg]   !this.reg[nodeID] ==> err == ErrUnregisteredNode
 //@ ensures [errkind] plainError(err)
-//@ ensures [value]   err == nil ==> bigval(result.Credit) == this.credit[this.cell[nodeID]] && bigval(result.Deposit) == this.deposit[this.cell[nodeID]]
+//@ ensures [value]   err == nil ==> bigval(result.Credit) == nodeCredit(this, nodeID) && bigval(result.Deposit) == nodeDeposit(this, nodeID)
 //@ modifies nothing
 
 //@ interface store.BalanceStore.AddNodeBalance(nodeID, credit) (err)
 //@ requires credit != nil
 //@ ensures [unreg]   !old(this.reg[nodeID]) ==> err == ErrUnregisteredNode
 //@ ensures [errkind] plainError(err)
-//@ ensures [ok]      err == nil ==> this.credit == upd(old(this.credit), this.cell[nodeID], old(this.credit)[this.cell[nodeID]] + bigval(credit))
-//@                                  && this.total == old(this.total) + bigval(credit)
-//@                                  && this.loglen == old(this.loglen) + 1
-//@                                  && this.logid == upd(old(this.logid), old(this.loglen), nodeID)
-//@                                  && this.logamt == upd(old(this.logamt), old(this.loglen), bigval(credit))
-//@ ensures [fail]    err != nil ==> this.credit == old(this.credit) && this.total == old(this.total)
-//@                                  && this.loglen == old(this.loglen) && this.logid == old(this.logid) && this.logamt == old(this.logamt)
-//@ modifies this.credit, this.total, this.loglen, this.logid, this.logamt
+//@ ensures [ok-reg]    err == nil ==> old(this.reg[nodeID])
+//@ ensures [ok-linked] err == nil && old(this.linked[nodeID]) ==> this.acredit == upd(old(this.acredit), old(this.acct[nodeID]), old(this.acredit[this.acct[nodeID]]) + bigval(credit)) && this.tcredit == old(this.tcredit)
+//@ ensures [ok-trial]  err == nil && !old(this.linked[nodeID]) ==> this.tcredit == upd(old(this.tcredit), nodeID, old(this.tcredit[nodeID]) + bigval(credit)) && this.acredit == old(this.acredit)
+//@ ensures [ok-total]  err == nil ==> this.total == old(this.total) + bigval(credit)
+//@ ensures [fail]    err != nil ==> sameCredit(this) && this.total == old(this.total)
+//@ ensures [frame]   sameLinks(this) && sameDeposits(this)
+//@ defines [log-ok]   err == nil ==> this.loglen == old(this.loglen) + 1 && this.logid == upd(old(this.logid), old(this.loglen), nodeID) && this.logamt == upd(old(this.logamt), old(this.loglen), bigval(credit))
+//@ defines [log-fail] err != nil ==> this.loglen == old(this.loglen) && this.logid == old(this.logid) && this.logamt == old(this.logamt)
+//@ modifies this.acredit, this.tcredit, this.total, this.loglen, this.logid, this.logamt
 
-// ---- effects: a ghost counter of effectful operations performed on behalf of a request.
-// Every store mutator, every outgoing RPC to a host and every settlement increments it;
-// "a refused request changes nothing" (C06) and "acts only on authenticated requests" (C04)
-// are stated over it.
-//@ ghost var effects int
+//@ interface store.BalanceStore.GetAccountBalance(account) (result, err)
+//@ ensures [errkind] plainError(err)
+//@ ensures [value]   err == nil ==> bigval(result.Credit) == this.acredit[account] && bigval(result.Deposit) == this.adeposit[account]
+//@ modifies nothing
+
+//@ interface store.BalanceStore.AddAccountBalance(account, credit) (err)
+//@ requires credit != nil
+//@ ensures [errkind] plainError(err)
+//@ ensures [ok]      err == nil ==> this.acredit == upd(old(this.acredit), account, old(this.acredit[account]) + bigval(credit)) && this.total == old(this.total) + bigval(credit)
+//@ ensures [fail]    err != nil ==> this.acredit == old(this.acredit) && this.total == old(this.total)
+//@ ensures [frame]   this.tcredit == old(this.tcredit) && sameLinks(this) && sameDeposits(this)
+//@ defines [log-ok]   err == nil ==> this.loglen == old(this.loglen) + 1 && effects == old(effects) + 1
+//@ defines [log-fail] err != nil ==> this.loglen == old(this.loglen) && effects == old(effects)
+//@ modifies this.acredit, this.total, this.loglen, effects
+
+// ---- AccountStore ---------------------------------------------------------------------
+
+//@ interface store.AccountStore.AddAccountNode(account, nodeID) (err)
+//@ ensures [unreg]    !old(this.reg[nodeID]) ==> err == ErrUnregisteredNode
+//@ ensures [errkind]  plainError(err)
+//@ ensures [move]     err == nil ==> this.linked == upd(old(this.linked), nodeID, true) && this.acct == upd(old(this.acct), nodeID, account)
+//@                      && this.acredit == upd(old(this.acredit), account, old(this.acredit[account]) + old(this.tcredit[nodeID]))
+//@                      && this.tcredit == upd(old(this.tcredit), nodeID, 0)
+//@ ensures [fail]     err != nil ==> sameCredit(this) && this.linked == old(this.linked) && this.acct == old(this.acct)
+//@ ensures [zero-sum] this.total == old(this.total)
+//@ ensures [frame]    this.reg == old(this.reg) && this.adeposit == old(this.adeposit)
+//@ defines [effect]   effects >= old(effects) && (err != nil ==> effects == old(effects))
+//@ modifies this.linked, this.acct, this.acredit, this.tcredit, this.tdeposit, effects
+
+//@ interface store.AccountStore.IsAccountNode(account, nodeID) (err)
+//@ ensures [authorized] err == nil <==> this.linked[nodeID] && this.acct[nodeID] == account
+//@ ensures [error]      err != nil ==> err == ErrNotAuthorized
+//@ modifies nothing
+
+//@ interface store.AccountStore.GetAccountNodes(account) (result, err)
+//@ modifies nothing
+
+// ---- NonceStore -----------------------------------------------------------------------
 
 //@ interface store.NonceStore.CheckAndSaveNonce(ID, nonce) (err)
-//@ ensures [accept]  err == nil ==> old(this.nonce[ID]) < nonce && this.nonce == upd(old(this.nonce), ID, nonce) && effects == old(effects) + 1
-//@ ensures [reject]  err != nil ==> this.nonce == old(this.nonce) && effects == old(effects)
+//@ ensures [accept]  err == nil ==> old(this.nonce[ID]) < nonce && this.nonce == upd(old(this.nonce), ID, nonce)
+//@ ensures [fresh]   err == nil && ExpireNonce > 0 ==> nonce > clock() - ExpireNonce
+//@ ensures [reject]  err != nil ==> this.nonce == old(this.nonce)
 //@ ensures [errkind] plainError(err)
-//@ defines [nonce-ok]   err == nil ==> nonceOK && nonceID == ID && nonceVal == nonce
-//@ defines [nonce-fail] err != nil ==> nonceOK == old(nonceOK) && nonceID == old(nonceID) && nonceVal == old(nonceVal)
-//@ modifies this.nonce, effects, nonceOK, nonceID, nonceVal
+//@ defines [effect-ok]   err == nil ==> effects == old(effects) + 1 && nonceOK && nonceID == ID && nonceVal == nonce
+//@ defines [effect-fail] err != nil ==> effects == old(effects) && nonceOK == old(nonceOK) && nonceID == old(nonceID) && nonceVal == old(nonceVal)
+//@ modifies this.nonce, effects, nonceOK, nonceID, nonceVal, clock
+
+// ---- PoolStore ------------------------------------------------------------------------
 
 //@ interface store.PoolStore.SetNode(n) (err)
-//@ ensures [effect]  effects >= old(effects) && (err != nil ==> effects == old(effects))
-//@ ensures [errkind] plainError(err)
-//@ modifies effects, this.reg
+//@ ensures [malformed] n.ID == "" ==> err == ErrMalformedNode
+//@ ensures [ok]        err == nil ==> this.reg == upd(old(this.reg), n.ID, true) && this.node == upd(old(this.node), n.ID, n)
+//@ ensures [fail]      err != nil ==> this.reg == old(this.reg) && this.node == old(this.node)
+//@ ensures [errkind]   plainError(err)
+//@ ensures [frame]     sameCredit(this) && this.total == old(this.total) && this.linked == old(this.linked) && this.acct == old(this.acct)
+//@ defines [effect]    effects >= old(effects) && (err != nil ==> effects == old(effects))
+//@ modifies effects, this.reg, this.node
 
 //@ interface store.PoolStore.GetNode(id) (result, err)
 //@ ensures [errkind] plainError(err)
-//@ ensures [found]   err == nil ==> result != nil && result.ID == id
+//@ ensures [unreg]   !this.reg[id] ==> err == ErrUnregisteredNode
+//@ ensures [found]   err == nil ==> result != nil && this.reg[id] && *result == this.node[id]
 //@ ensures [missing] err != nil ==> result == nil
 //@ modifies nothing
 
 //@ interface store.PoolStore.UpdateNodePeers(nodeID, peers, blockNumber) (inactive, err)
-//@ ensures [effect]  effects >= old(effects) && (err != nil ==> effects == old(effects))
+//@ defines [effect]  effects >= old(effects) && (err != nil ==> effects == old(effects))
 //@ ensures [errkind] plainError(err)
 //@ modifies effects
 
@@ -87,27 +148,4 @@ package store
 //@ requires limit >= 0
 //@ ensures [errkind] plainError(err)
 //@ ensures [limit]   err == nil && limit > 0 ==> len(result) <= limit
-//@ modifies nothing
-
-//@ interface store.BalanceStore.GetAccountBalance(account) (result, err)
-//@ ensures [errkind] plainError(err)
-//@ ensures [value]   err == nil ==> bigval(result.Credit) == this.credit[string(account)] && bigval(result.Deposit) == this.deposit[string(account)]
-//@ modifies nothing
-
-//@ interface store.BalanceStore.AddAccountBalance(account, credit) (err)
-//@ requires credit != nil
-//@ ensures [errkind] plainError(err)
-//@ ensures [ok]      err == nil ==> this.credit == upd(old(this.credit), string(account), old(this.credit)[string(account)] + bigval(credit))
-//@                                  && this.total == old(this.total) + bigval(credit)
-//@                                  && this.loglen == old(this.loglen) + 1 && effects == old(effects) + 1
-//@ ensures [fail]    err != nil ==> this.credit == old(this.credit) && this.total == old(this.total) && this.loglen == old(this.loglen) && effects == old(effects)
-//@ modifies this.credit, this.total, this.loglen, effects
-
-//@ interface store.AccountStore.AddAccountNode(account, nodeID) (err)
-//@ ensures [errkind]  plainError(err)
-//@ ensures [zero-sum] this.total == old(this.total)
-//@ ensures [effect]   effects >= old(effects) && (err != nil ==> effects == old(effects) && this.credit == old(this.credit) && this.cell == old(this.cell))
-//@ modifies this.credit, this.cell, effects
-
-//@ interface store.AccountStore.GetAccountNodes(account) (result, err)
 //@ modifies nothing
